@@ -16,4 +16,6 @@ f21_1:
   call f19_0
   call f3_1
   call f21_1
+  mov wvsv0(%rip),%rax
+  mov wvsv1(%rip),%rax
   ret
